@@ -767,3 +767,5 @@ def B(prop, n):
 
 for _n in range(1, 7):
     B("C19", _n)
+for _n in range(1, 7):
+    B("C05", _n)
